@@ -44,7 +44,25 @@ func genFor(model string) func(t *rapid.T) Case {
 					fr[k] = rapid.SampledFrom([]float64{0, 1, 1.5, -0.25}).Draw(t, "fv")
 				}
 			}
-		case "EmcDwc", "FixedConcentration":
+		case "EmcDwc", "FixedConcentration", "SednetDissolvedNutrientGeneration":
+			// flows at the tail of a recession: tiny but not zero (linear means linear down there too)
+			if rapid.IntRange(0, 3).Draw(t, "tinyFlows") == 0 {
+				for _, nm := range []string{"quickflow", "baseflow", "flow", "slowflow"} {
+					for ii, in := range desc.Inputs {
+						if in != nm {
+							continue
+						}
+						for k := range c.A.Inputs[ii] {
+							if rapid.IntRange(0, 2).Draw(t, "tinyStep") == 0 {
+								c.A.Inputs[ii][k] = rapid.SampledFrom([]float64{1e-7, 3e-9, 1e-9, 1e-12, 1e-30}).Draw(t, "tiny")
+							}
+						}
+					}
+				}
+			}
+			if name == "SednetDissolvedNutrientGeneration" {
+				break
+			}
 			// a concentration of exactly zero (below the documented lower bound, still a parameter value): the
 			// kernels return early on it, and the load must then be zero
 			for i := range c.A.Cell {
